@@ -7,6 +7,7 @@ import (
 	"bytes"
 	"encoding/json"
 	"fmt"
+	"github.com/hashicorp/go-kms-wrapping/v2/extras/multi"
 	"strings"
 	"time"
 
@@ -25,16 +26,26 @@ import (
 type config struct {
 	Wrapper bool          `json:"wrapper"`
 	Life    time.Duration `json:"life"`
+	// Pooled: the storage wrapper is a pool whose encrypting key the operator
+	// can rotate (earlier keys stay in the pool)
+	Pooled bool `json:"pooled,omitempty"`
 }
 
-func (c config) String() string { return fmt.Sprintf("wrapper=%v,life=%v", c.Wrapper, c.Life) }
+func (c config) String() string {
+	if c.Pooled {
+		return fmt.Sprintf("wrapper=pooled,life=%v", c.Life)
+	}
+	return fmt.Sprintf("wrapper=%v,life=%v", c.Wrapper, c.Life)
+}
 
 var configs = []config{
-	{false, time.Hour}, {true, time.Hour},
-	{false, time.Nanosecond}, {true, time.Nanosecond},
-	{false, nodeenrollment.DefaultMaximumServerLedActivationTokenLifetime}, {true, nodeenrollment.DefaultMaximumServerLedActivationTokenLifetime},
+	{false, time.Hour, false}, {true, time.Hour, false},
+	{false, time.Nanosecond, false}, {true, time.Nanosecond, false},
+	{false, nodeenrollment.DefaultMaximumServerLedActivationTokenLifetime, false}, {true, nodeenrollment.DefaultMaximumServerLedActivationTokenLifetime, false},
 	// a maximum lifetime of zero: every token is too old one nanosecond after its creation
-	{false, 0}, {true, 0},
+	{false, 0, false}, {true, 0, false},
+	// a pooled storage wrapper, with the operator action "rotate the KMS key"
+	{true, time.Hour, true},
 }
 
 type tokState struct {
@@ -48,10 +59,12 @@ type state struct {
 	st  *harness.MemStore
 	now time.Time
 	tok map[string]*tokState
+	// rotated: the pool's encrypting key has been rotated (pooled configuration)
+	rotated bool
 }
 
 func (s *state) clone() *state {
-	c := &state{st: s.st.Clone(), now: s.now, tok: map[string]*tokState{}}
+	c := &state{st: s.st.Clone(), now: s.now, tok: map[string]*tokState{}, rotated: s.rotated}
 	for k, v := range s.tok {
 		cp := *v
 		c.tok[k] = &cp
@@ -60,16 +73,34 @@ func (s *state) clone() *state {
 }
 
 type world struct {
-	cfg  config
-	p    *harness.Pool
-	sw   wrapping.Wrapper
-	tok  map[string]*harness.Token
-	seed int64
+	cfg config
+	p   *harness.Pool
+	sw  wrapping.Wrapper
+	// pooled configuration: the pool before and after the operator rotated its key
+	poolBefore, poolAfter wrapping.Wrapper
+	tok                   map[string]*harness.Token
+	seed                  int64
 }
 
 func newWorld(cfg config, seed int64) *world {
 	return &world{cfg: cfg, p: harness.NewPool(seed, 2, 2, 0, 2), sw: harness.SafeWrapper{Wrapper: harness.Wrapper("storage", seed)}, seed: seed,
 		tok: map[string]*harness.Token{"T1": harness.TokenPreview("T1", seed), "T2": harness.TokenPreview("T2", seed)}}
+}
+
+func (w *world) buildPools() {
+	a, err := multi.NewPooledWrapper(harness.Ctx, harness.Wrapper("storage", w.seed))
+	if err != nil {
+		panic(err)
+	}
+	b, err := multi.NewPooledWrapper(harness.Ctx, harness.Wrapper("storage", w.seed))
+	if err != nil {
+		panic(err)
+	}
+	if _, err := b.SetEncryptingWrapper(harness.Ctx, harness.Wrapper("storage-next-key", w.seed)); err != nil {
+		panic(err)
+	}
+	w.poolBefore, w.poolAfter = harness.SafeWrapper{Wrapper: a}, harness.SafeWrapper{Wrapper: b}
+	w.sw = w.poolBefore
 }
 
 func (w *world) opts() []nodeenrollment.Option {
@@ -87,6 +118,9 @@ func (w *world) opts() []nodeenrollment.Option {
 
 func (w *world) initial() *state {
 	vclock.Freeze(harness.T0)
+	if w.cfg.Pooled {
+		w.buildPools()
+	}
 	s := &state{st: harness.NewMemStore(), now: harness.T0, tok: map[string]*tokState{"T1": {}, "T2": {}}}
 	harness.InitRoots(s.st, w.opts()...)
 	return s
@@ -151,6 +185,9 @@ func (w *world) keyOf(s *state) string {
 			parts = append(parts, fmt.Sprintf("K%d=rec(%s)", i+1, harness.Lookup(n.RegistrationNonce, map[string][]byte{"N1": w.p.N[0], "T1": w.tok["T1"].Bytes, "T2": w.tok["T2"].Bytes})))
 		}
 	}
+	if s.rotated {
+		parts = append(parts, "kms-key-rotated")
+	}
 	return strings.Join(parts, " ")
 }
 
@@ -161,7 +198,20 @@ func (w *world) apply(s *state, label string, r *engine.Report) (ns *state, sig,
 	vclock.Freeze(s.now)
 	f := strings.Split(label, ":")
 	ns = s.clone()
+	if w.cfg.Pooled {
+		// the wrapper the server is configured with in this state
+		w.sw = w.poolBefore
+		if s.rotated {
+			w.sw = w.poolAfter
+		}
+	}
 	switch f[0] {
+	case "rotate-kms-key":
+		if !w.cfg.Pooled || s.rotated {
+			return nil, "", ""
+		}
+		ns.rotated = true
+		return ns, "", ""
 	case "create":
 		tn := f[1]
 		if s.tok[tn].Issued {
@@ -336,7 +386,7 @@ func (w *world) apply(s *state, label string, r *engine.Report) (ns *state, sig,
 }
 
 func labels() []string {
-	ls := []string{"create:T1", "create:T2", "auth:K1", "auth:K2", "rm:K1", "rm:K2", "age:life-1ns", "age:1ns", "age:2life"}
+	ls := []string{"create:T1", "create:T2", "auth:K1", "auth:K2", "rm:K1", "rm:K2", "age:life-1ns", "age:1ns", "age:2life", "rotate-kms-key"}
 	for _, t := range []string{"T1", "T2"} {
 		for _, k := range []string{"K1", "K2"} {
 			ls = append(ls, "use:"+t+":"+k)
@@ -442,11 +492,11 @@ func init() {
 	engine.Register(&engine.CheckDef{
 		ID:    "C06",
 		Level: "model_checking",
-		Rule: "BFS (quick depth 4, thorough depth 6) over {create T1|T2, use Ti by K1|K2, authorize Kj, remove Kj, age by lifetime-1ns | 1ns | 2*lifetime, tamper Ti with clear-time | transplant of the sealed value | copy of the other token's whole record | bit-flip | downgrade} on the real registration code under a frozen virtual clock, for 8 configurations (storage wrapper off/on x maximum lifetime 1h, 1ns, 14d, 0); state key = per token (presence, exact age up to lifetime+1ns, tamper tag, consumed) and per key whether it has a record; " +
+		Rule: "BFS (quick depth 4, thorough depth 6) over {create T1|T2, use Ti by K1|K2, authorize Kj, remove Kj, age by lifetime-1ns | 1ns | 2*lifetime, tamper Ti with clear-time | transplant of the sealed value | copy of the other token's whole record | bit-flip | downgrade} on the real registration code under a frozen virtual clock, for 9 configurations (storage wrapper off/on x maximum lifetime 1h, 1ns, 14d, 0; and a pooled storage wrapper with the operator action 'rotate the KMS key'); state key = per token (presence, exact age up to lifetime+1ns, tamper tag, consumed) and per key whether it has a record; " +
 			"token creation with an application-supplied random source that delivers {0,1,2,16,31} bytes (nil error) on its first / second read, with and without a storage wrapper: creation must fail, else the stored id is attacked with 65536 offline key guesses and every token byte must have come from the source; " +
 			"distinct_nontrivial = number of canonical states reached over all configurations",
 		Assumptions: []string{"the storage wrapper is length-guarded: an edited record can hand go-kms-wrapping's aead wrapper a ciphertext shorter than its nonce, which panics inside that dependency (not attributed to this library)", "the tie age == lifetime is not constrained (the property says 'exceeds')", "without a storage wrapper the stored clear creation time is what governs expiry (the property promises tamper resistance only with a wrapper)"},
-		Shards:      func(c *engine.Ctx) int { return 8 },
+		Shards:      func(c *engine.Ctx) int { return 9 },
 		Run:         run,
 		Replay:      replay,
 	})
